@@ -235,11 +235,18 @@ class DateTextInfo(dateutil_parser.parserinfo):
 DATE_TEXT_PARSER = dateutil_parser.parser(DateTextInfo())
 
 
+MAX_DATE_TEXT = 1000  # characters, blanks at the ends aside
+
+
 def text_to_date(text):
     # dateutil takes what a text leaves out from a default date-time - today, if none is given:
     # "March 2020" then meant another day on every day of the month (and no date at all on the
     # 31st), "10:30" carried the date of the evaluation and "5 March" its year.  What a text leaves
     # out is taken from 1 January 1900, the day TIME() uses: the same text is the same date always
+    if len(text.strip()) > MAX_DATE_TEXT:
+        # no date is that long, and dateutil reads text a character at a time in Python (ten million
+        # digits - written by a 188-character formula of nested SUBSTITUTEs - took half a minute)
+        raise ValueError('too long for a date')
     return DATE_TEXT_PARSER.parse(text, default=date_1900)
 
 
